@@ -2,15 +2,20 @@
 //
 // Line protocol (one result line per op line):
 //   case <id>                              -> "case"                       (forgets registered workloads)
-//   w <tid> crc <iters> <hex>              -> "w <tid> seq=<crc32 decimal>"
-//   w <tid> <kind> <iters> <seed> [alone=] -> "w <tid> seq=<digest>"       kind in parse|build|copy|addr|reasm|follow|wep|wpa2
-//        the workload is run once, sequentially, on the main thread (the "same calls run alone") and registered
-//   go <yseed> <reps>                      -> "go conc=<d0>,<d1>,… races=<n>"
-//        every registered workload runs on its own thread, all threads released together, random yields between
-//        iterations (seeded by yseed, thread index and repetition); repeated <reps> times.  d_i is the digest thread i
-//        obtained (MIXED:<a>/<b> if repetitions disagree).  races = ThreadSanitizer reports raised during the op.
-// argv[1] == "alone": `go` is not executed (prints "go skipped"); used with the ASan/UBSan build to obtain the
-// reference digests of every workload run alone.
+//   w <tid> crc <iters> <hex>
+//   w <tid> <kind> <iters> <seed> [alone=] kind in parse|build|copy|addr|reasm|follow|wep|wpa2
+//        registers a workload.  Default mode: -> "w <tid> reg" (nothing is executed yet).
+//        argv[1] == "alone": the workload is executed right away on the only thread of the process
+//        -> "w <tid> seq=<digest>" (crc: the CRC-32 in decimal) — "the same calls run alone", the reference.
+//   go <yseed> <reps>                      -> "go conc=<d0>,<d1>,… seq=<s0>,<s1>,… races=<n>"   ("go skipped" in alone mode)
+//        in a forked child (fresh statics: the parent never executes libtins code, so lazily initialised state is
+//        initialised inside the concurrent run) every registered workload runs on its own thread, all threads
+//        released together, random yields between iterations (seeded by yseed, thread index and repetition);
+//        repeated <reps> times.  d_i is the digest thread i obtained (MIXED:<a>/<b> if repetitions disagree);
+//        s_i is the digest of the same workload executed once more afterwards on a single thread of that process.
+//        races = ThreadSanitizer reports raised during the op.
+//   selftest                               -> "selftest races=<n>"        deliberate race inside the harness (n must be > 0 under TSan)
+//   stat <kind> <iters> <seed>             -> "stat <digest> <counter>=<n> …"  what a workload exercises (evidence)
 //
 // All objects are created inside the workload function: nothing libtins-related is shared between threads by the harness.
 #include "common.h"
@@ -23,6 +28,8 @@
 #include <algorithm>
 #include <map>
 #include <sched.h>
+#include <unistd.h>
+#include <sys/wait.h>
 #include <time.h>
 
 using namespace Tins;
@@ -678,6 +685,41 @@ std::string guarded(const Work& w, Yielder& y) {
 
 } // namespace
 
+// Runs `f` in a forked child and returns what it returned (through a pipe).  The parent process never executes
+// libtins code, so every `w` (run alone) and every `go` (concurrent run) starts from freshly initialised statics —
+// a lazily initialised table or registry is initialised *inside* the run that is being judged.
+static std::string in_child(const std::function<std::string()>& f) {
+    int fd[2];
+    if (pipe(fd) != 0) return "harness-error pipe";
+    fflush(stdout); fflush(stderr);
+    pid_t pid = fork();
+    if (pid < 0) return "harness-error fork";
+    if (pid == 0) {
+        close(fd[0]);
+        std::string r;
+        try { r = f(); } catch (const std::exception& e) { r = "throw " + vh::exc_name(e); }
+        size_t off = 0;
+        while (off < r.size()) { ssize_t n = write(fd[1], r.data() + off, r.size() - off); if (n <= 0) break; off += size_t(n); }
+        close(fd[1]);
+        fflush(stderr);
+        _exit(0);
+    }
+    close(fd[1]);
+    std::string r;
+    char buf[4096];
+    ssize_t n;
+    while ((n = read(fd[0], buf, sizeof buf)) > 0) r.append(buf, size_t(n));
+    close(fd[0]);
+    int status = 0;
+    waitpid(pid, &status, 0);
+    if (!WIFEXITED(status) || WEXITSTATUS(status) != 0 || r.empty()) {
+        // the child died (signal / sanitizer abort): die the same way so that the driver attributes a FAULT to this op
+        fprintf(stderr, "c18 harness: child died, status=%d\n", status);
+        abort();
+    }
+    return r;
+}
+
 int main(int argc, char** argv) {
     bool alone = argc > 1 && std::string(argv[1]) == "alone";
     std::vector<Work> works;
@@ -691,26 +733,39 @@ int main(int argc, char** argv) {
             if (k.kind == "crc") { if (!vh::parse_hex(w[4], k.data)) return "bad-op"; }
             else k.seed = strtoull(w[4].c_str(), 0, 10);
             if (works.size() >= 64) return "bad-op";
-            Yielder none(0, false);
-            std::string dg = guarded(k, none);
             works.push_back(k);
-            return "w " + k.tid + " seq=" + dg;
+            if (!alone) return "w " + k.tid + " reg";        // nothing runs in this process before the forked `go`
+            Yielder none(0, false);
+            return "w " + k.tid + " seq=" + guarded(k, none);
+        }
+        if (w[0] == "selftest") {       // the race detector and the report hook work: a deliberate race in the harness itself
+            static int racy = 0;
+            int before = g_reports.load();
+            if (!alone) {
+                std::thread a([&]() { for (int i = 0; i < 1000; ++i) racy = racy + 1; });
+                std::thread b([&]() { for (int i = 0; i < 1000; ++i) racy = racy + 2; });
+                a.join(); b.join();
+            }
+            return "selftest races=" + std::to_string(g_reports.load() - before);
         }
         if (w[0] == "stat" && w.size() >= 4) {          // stat <kind> <iters> <seed>: what the workload exercises (evidence only)
             Work k; k.tid = "-"; k.kind = w[1]; k.iters = uint32_t(strtoul(w[2].c_str(), 0, 10)); k.seed = strtoull(w[3].c_str(), 0, 10);
             if (k.kind == "crc") return "bad-op";
-            std::map<std::string, unsigned> st;
-            Yielder yy(0, false); yy.stats = &st;
-            std::string dg = guarded(k, yy);
-            std::string s = "stat " + dg;
-            for (std::map<std::string, unsigned>::const_iterator it = st.begin(); it != st.end(); ++it) s += " " + it->first + "=" + std::to_string(it->second);
-            return s;
+            return in_child([&]() -> std::string {
+                std::map<std::string, unsigned> st;
+                Yielder yy(0, false); yy.stats = &st;
+                std::string dg = guarded(k, yy);
+                std::string s = "stat " + dg;
+                for (std::map<std::string, unsigned>::const_iterator it = st.begin(); it != st.end(); ++it) s += " " + it->first + "=" + std::to_string(it->second);
+                return s;
+            });
         }
         if (w[0] == "go" && w.size() >= 3) {
             if (alone) return "go skipped";
             uint64_t yseed = strtoull(w[1].c_str(), 0, 10);
             uint32_t reps = uint32_t(strtoul(w[2].c_str(), 0, 10));
             if (reps == 0 || reps > 64) return "bad-op";
+            return in_child([&]() -> std::string {
             int before = g_reports.load();
             size_t n = works.size();
             std::vector<std::string> first(n), mixed(n);
@@ -741,8 +796,13 @@ int main(int argc, char** argv) {
                 s += mixed[i].empty() ? first[i] : ("MIXED:" + first[i] + "/" + mixed[i]);
             }
             if (n == 0) s += "-";
+            // afterwards, in the same process, every workload once more on a single thread
+            s += " seq=";
+            for (size_t i = 0; i < n; ++i) { Yielder none(0, false); if (i) s += ","; s += guarded(works[i], none); }
+            if (n == 0) s += "-";
             s += " races=" + std::to_string(g_reports.load() - before);
             return s;
+            });
         }
         return "bad-op";
     });
